@@ -129,8 +129,13 @@ fn c14_part(differential: bool) -> PartResult {
                     continue;
                 }
             }
-            for fmt in [sl::Fmt::Json, sl::Fmt::Ron] {
-                let spec = sl::WorldSpec { n: 3, marked: *marked, pa: *pa, pb: *pb, link: link.clone(), link2: link2.clone(), uuid: false, recursive, fmt, perm: vec![], emptied: false };
+            for (fmt, uuid, emptied) in [(sl::Fmt::Json, false, false), (sl::Fmt::Ron, false, true), (sl::Fmt::Json, true, true), (sl::Fmt::Ron, true, false)] {
+                // uuid markers only with caller-chosen ids (random ids are random by specification);
+                // the recursive serialiser marks reachable entities with random uuids: simple markers only
+                if uuid && recursive {
+                    continue;
+                }
+                let spec = sl::WorldSpec { n: 3, marked: *marked, pa: *pa, pb: *pb, link: link.clone(), link2: link2.clone(), uuid, recursive, fmt, perm: vec![], emptied, explicit_ids: uuid || (*pa & 1 == 1), deferred_src: *marked & 1 == 1 };
                 let a = sl::run_spec(&spec);
                 n += 1;
                 if let Ok(t) = &a {
@@ -179,6 +184,7 @@ fn all_parts(differential: bool, thorough: bool) -> Vec<PartResult> {
     let ls = |ops: &[sl::Op]| sl::show_ops(ops);
     let lj = |ops: &[sl::Op]| serde_json::to_value(ops).unwrap();
     out.push(run_part("saveload-histories", differential, sl::sl_system(3, false), sl::sl_system(3, true), 5 + d, &ls, &lj));
+    out.push(run_part("saveload-histories-with-direct-marker-removal", differential, sl::sl_system_quiet(3, false), sl::sl_system_quiet(3, true), 5 + d, &ls, &lj));
     out.push(c14_part(differential));
     out
 }
